@@ -194,10 +194,10 @@ Proof.
     + destruct (mesg_all_invalid (dm_gmn dm)); [reflexivity|exact I].
     + destruct (o_unkm o); reflexivity.
   - intros msgv s1 _. destruct (negb compressed); [apply parse_data_fields_fg|].
-    cbn [get_st bind wps]. destruct (ds_ts s1 =? 0); [apply parse_data_fields_fg|].
+    cbn [get_st bind wps]. destruct (negb (ds_hasts s1)); [apply parse_data_fields_fg|].
     cbn [put_st bind wps].
-    set (s2 := if _ =? 0 then with_quirk _ _ else with_time _ _ _).
-    assert (H2 : fg s2 = fg s1) by (unfold s2; destruct (_ =? 0); reflexivity). clearbody s2.
+    set (s2 := with_time _ _ _).
+    assert (H2 : fg s2 = fg s1) by reflexivity. clearbody s2.
     assert (Hp : forall mv, wps (parse_data_fields o dm (known_msg (dm_gmn dm)) mv) (fun _ s' => fg s' = fg s1) s2).
     { intros mv. eapply wps_mono; [|apply parse_data_fields_fg]. intros a s' H'. cbv beta in *. congruence. }
     destruct (get_field (dm_gmn dm) c_fieldNumTimeStamp) as [p|]; [|apply Hp].
